@@ -154,6 +154,9 @@ def _mk_roundtrip(cid, form):
                     with FST.options(**pc.OPTS):
                         x.cont.put_slice(piece, s, s, c.field)
                 except pc.EXPECTED_RAISES as ex:
+                    if c.refuse_re and __import__('re').search(c.refuse_re, str(ex)):
+                        cover('put_back.documented_refusal')
+                        return
                     fail(sig + '.cannot_put_back_what_was_cut', (pc.R(x.root.src), type(ex).__name__, str(ex)[:200]))
             else:
                 i = pc.ref_index(x.n, a)
@@ -327,8 +330,8 @@ CELLS.append(tletter.letter_cell('T1', 'put_line_comment_block', 'if c:  # ¡\n 
 _Q = {'list4c', 'ifbody3', 'dict3', 'tuple3', 'uni_list', 'handlers', 'strstmts'}
 for _c in pc.CARRIERS:
     for _form in ('cut_put', 'own_copy', 'own_ast', 'own_src'):
-        if _form != 'cut_put' and not _c.elem_ops:
-            continue
+        if _form != 'cut_put' and (not _c.elem_ops or not _c.old):
+            continue      # own_* forms need an element (an empty carrier has none: the cell would be vacuous)
         CELLS.append(Cell(f'P1.{_c.id}.{_form}', _mk_roundtrip(_c.id, _form), 'P', pc.FN_EDIT + ['fst.fst.FST.own_src', 'fst.fst.FST.copy', 'fst.code.code_as_expr'],
                           f'carrier {_c.id}; round trip {_form} with symbolic ints over Z, repeated 1-2 times; whole-tree structure (CPython parse) must equal the original',
                           tier='quick' if _c.id in _Q and _form in ('cut_put', 'own_ast') else 'thorough', budget=600, per_path=60, reset=pc.reset_globals))
